@@ -10,6 +10,7 @@ FILES = {
     # name -> (files dict, description)
     "E": {"e.c": "void e(void){int a[2];a[3]=0;}\n"},
     "E2": {"e2.c": "int e2(int x){ return x/0; }\n"},
+    "E3": {"e3.c": "void e3(void){int a[2];a[5]=0;}\nint e3b(int x){ return x/0; }\nvoid e3c(void){int b[3];b[4]=0;}\n"},
     "H1": {"hdr.h": HDR, "h1.c": "#include \"hdr.h\"\nvoid h1(void){ hf(); }\n"},
     "H2": {"hdr.h": HDR, "h2.c": "#include \"hdr.h\"\nvoid h2(void){ hf(); }\n"},
     "SI": {"si.c": "void si(void){int a[2];\n// cppcheck-suppress arrayIndexOutOfBounds\na[4]=0;}\n"},
